@@ -1,0 +1,9 @@
+//go:build verif
+
+package geom
+
+// VerifSolve3 exposes the polynomial root finder to the verification harness.
+// coeff holds the coefficients in increasing order of degree: coeff[0] + coeff[1]*x + coeff[2]*x^2 + coeff[3]*x^3.
+func VerifSolve3(coeff []float64) []float64 {
+	return solve3(coeff)
+}
